@@ -12,7 +12,16 @@ mod usw {
     pub const UNAME: &str = "SW";
     include!("us_body.rs");
 }
-mod ut;
+mod ut {
+    pub type EE = vrt::track::Tracked<4>;
+    pub const UNAME: &str = "T";
+    include!("ut_body.rs");
+}
+mod utw {
+    pub type EE = vrt::track::TrackedW<4>;
+    pub const UNAME: &str = "TW";
+    include!("ut_body.rs");
+}
 
 use engine::*;
 use std::collections::HashSet;
@@ -72,12 +81,14 @@ fn main() {
     vrt::rmwlog::install();
     if let Some(c) = arg(&args, "--crash-file") {
         vrt::crash::install(&c);
+        vrt::crash::start_watchdog(30);
     }
     let uni = arg(&args, "--universe").unwrap_or("S".into());
     let j = match uni.as_str() {
         "S" => run::<us::US>(&args),
         "SW" => run::<usw::US>(&args),
         "T" => run::<ut::UT>(&args),
+        "TW" => run::<utw::UT>(&args),
         "L" => run::<ul::UL>(&args),
         _ => panic!("unknown universe"),
     };
